@@ -354,10 +354,20 @@ def r14_elect_before_exclude(ctx):
                 targets.append((cfg.of_stmt[lp], call, lp))
             else:
                 targets.append((dn, call, None))
+        for call in attr_calls(f, ('unpend',)):
+            dn = cfg_node_of(ctx, f, call)
+            if dn not in inside or not (call.args or call.keywords):
+                continue           # un-pending with a message = choosing a surplus to transfer
+            recv = call.func.value
+            lp, _ = deriv(ctx).for_binding(recv) if isinstance(recv, ast.Name) else (None, None)
+            targets.append((cfg.of_stmt[lp] if lp is not None else dn, call, lp))
         for tn, call, lp in targets:
             n += 1
             what = 'a hopeful candidate is excluded only right after an election step, with no tally change in between ' \
                    '(so nobody holding a quota is excluded)'
+            if call.func.attr == 'unpend':
+                what = 'a surplus is chosen for transfer only right after an election step, with no tally change in between ' \
+                       '(whoever reached the quota is elected at the next election step, not left undecided)'
             if ri.short == 'mpls' and lp is not None:
                 ctx.ok(R, call, f, what, 'exception (one symbol, mpls.Rule.count `for c in defeatCandidates`): the Minneapolis ordinance '
                                          'defeats undeclared write-ins and certain losers before the election step of the round '
@@ -377,8 +387,8 @@ def r14_elect_before_exclude(ctx):
                     bad = s
                     break
             ctx.check(bad is None, R, call, f, what,
-                      'every path from the loop head or from a tally mutation to this exclusion passes an election step',
-                      'the exclusion at line %d is reachable from %s without an election step in between'
+                      'every path from the loop head or from a tally mutation to this step passes an election step',
+                      'the step at line %d is reachable from %s without an election step in between'
                       % (tn.line, 'the loop head' if bad is head else 'the tally mutation at line %s' % (bad.line if bad else '?')))
     ctx.floor(R, 'exclusion sites', n, 12)
 
